@@ -22,7 +22,7 @@ RULE = (
     "result (L0 identical copy -> no marks; L1 result minus removed/moved-away == T1 as unordered labelled tree; L2 "
     "children minus added/moved-here == T0 child list in order below common nodes; L3 one-sided marks exactly on "
     "one-sided children; L4 moved-here <-> moved-away with equal data; L5 order marks == (index in T0, index in T1), "
-    "iff ordered and different; L6 reduce keeps exactly marked nodes + ancestors; L7 inputs unchanged), with nodes "
+    "iff ordered and different; L6 reduce keeps exactly marked nodes + ancestors; L7 inputs unchanged - half of the cases put user metadata on some input nodes before the comparison), with nodes "
     "identified by their label path (sibling labels are unique). Non-trivial: >= 1 one-sided child and >= 1 common "
     "child that has children; distinct = distinct case."
 )
@@ -95,8 +95,15 @@ def run(case, rec):
     spec0 = case["t0"]
     spec1 = apply_edits(spec0, case["edits"]) if "edits" in case else case["t1"]
     ordered, reduce_ = case["ordered"], case["reduce"]
-    t0, _ = build(spec0, name="T0")
-    t1, _ = build(spec1, name="T1")
+    t0, nodes0 = build(spec0, name="T0")
+    t1, nodes1 = build(spec1, name="T1")
+    # user metadata on some input nodes (set before the comparison): it is part of the inputs' observable state
+    for nodes_, idxs in ((nodes0, case.get("meta0") or []), (nodes1, case.get("meta1") or [])):
+        for i in idxs:
+            if nodes_:
+                nodes_[i % len(nodes_)].set_meta("user", i)
+    if case.get("meta0") or case.get("meta1"):
+        rec.cls("inputs-with-user-meta")
     u = Uids()
     before0, before1 = snapshot(t0, u), snapshot(t1, u)
     res = t0.diff(t1, ordered=ordered, reduce=reduce_)
@@ -328,6 +335,9 @@ def hyp_cases(draw, tier):
             st.tuples(st.just("move"), st.integers(0, 30), st.integers(0, 5), st.integers(0, 30), st.integers(0, 5)),
         )
         case["edits"] = [list(e) for e in draw(st.lists(edit, min_size=1, max_size=6))]
+    if draw(st.sampled_from([0, 1])):
+        case["meta0"] = draw(st.lists(st.integers(0, 13), min_size=1, max_size=4))
+        case["meta1"] = draw(st.lists(st.integers(0, 13), min_size=0, max_size=4))
     return case
 
 
